@@ -1,8 +1,14 @@
 """Script generator for C17 (round trips and exact grammars).
 
-Streams:  num    - number recognisers / conversions: exhaustive small universe over a number
-                   alphabet, a grammar-derived valid stream, a near-miss malformed stream
-          int.rt - toString(int) -> toInt
+Streams:  num     - number recognisers / conversions: exhaustive small universe over a number
+                    alphabet, a grammar-derived valid stream, a near-miss malformed stream
+          int.rt  - toString(int) -> toInt
+          dbl.rt  - toString(double, precision) -> toDouble (text compared with the %g model)
+          glob, kv.*, vars - wildcard matcher, key-value procedures, variable resolution
+          st.rt / nst.rt   - StringTokenizer / NestedStringTokenizer: tokens, recorded separators,
+                    unparse before and after k tokens (round 2)
+          tbl.rt  - DataTable write -> read (round 2)
+          dist.rt - distribution description write -> read, explored (round 2)
 All strings are hex-escaped ("-" = empty)."""
 import random, itertools, struct, re
 from fractions import Fraction
@@ -384,6 +390,319 @@ def gen_vars(rng, tier):
     return chunk("vars", normal, 200) + [["case varshang%d" % i, o] for i, o in enumerate(hanging)]
 
 
+# ------------------------------------------------------------------ tokenizer round trips (round 2)
+TOK_ALPHA = "ab ,;()=\t:"
+
+
+def rich_string(rng, delims, maxlen=24):
+    """a string of up to `maxlen` characters that is rich in the delimiters: runs of delimiters at
+    both ends and inside, the delimiter string itself (solid mode) repeated, empty fields"""
+    n = rng.randint(0, maxlen)
+    out = ""
+    while len(out) < n:
+        r = rng.random()
+        if r < 0.35 and delims:
+            out += rng.choice(delims) * rng.choice([1, 1, 1, 2, 3])
+        elif r < 0.50 and delims:
+            out += delims * rng.choice([1, 1, 2, 3])
+        elif r < 0.58 and delims:
+            out += delims[:-1] if len(delims) > 1 else delims       # a partial solid delimiter
+        else:
+            out += "".join(rng.choice(TOK_ALPHA) for _ in range(rng.choice([1, 1, 2, 3, 5])))
+    return out[:maxlen]
+
+
+def gen_tok(rng, tier):
+    thorough = tier == "thorough"
+    ops = []
+    # exhaustive: every string over {a , ;} up to length 5 / 7, three delimiter strings, the four
+    # option combinations; unparse after 0 / 1 / 2 / all tokens
+    L = 7 if thorough else 5
+    for n in range(L + 1):
+        for t in itertools.product("a,;", repeat=n):
+            st = "".join(t)
+            for d in (",", ",;", ",,"):
+                for solid in (0, 1):
+                    for ae in (0, 1):
+                        k = (n + solid + 2 * ae + len(d)) % 4
+                        ops.append("st.rt %s %s %d %d %d" % (hx(st), hx(d), solid, ae, 99 if k == 3 else k))
+    # random delimiter-rich strings up to length 24 over the property's alphabet
+    nr = 30000 if thorough else 4000
+    dsets = [",", " ", ", ", ",;", " \t", "::", "=", "ab", "()", ";;;", ":", "a", ""]
+    for _ in range(nr):
+        d = rng.choice(dsets)
+        st = rich_string(rng, d)
+        ops.append("st.rt %s %s %d %d %d" % (hx(st), hx(d), rng.randint(0, 1), rng.randint(0, 1),
+                                            rng.choice([0, 1, 2, 3, 5, 99])))
+    return chunk("tok", ops, 400)
+
+
+def nested_string(rng, delims, o, c, maxlen=24):
+    """mostly balanced bracket structure with delimiters inside and outside the brackets"""
+    out = ""
+    depth = 0
+    n = rng.randint(0, maxlen)
+    while len(out) < n:
+        r = rng.random()
+        if r < 0.22:
+            out += o; depth += 1
+        elif r < 0.42 and depth > 0:
+            out += c; depth -= 1
+        elif r < 0.65 and delims:
+            out += rng.choice([rng.choice(delims), delims, rng.choice(delims) * 2])
+        else:
+            out += rng.choice("abxy=")
+    r = rng.random()
+    if r < 0.75:
+        out += c * depth                      # close what is open
+    elif r < 0.85:
+        out = c + out                         # a negative depth
+    return out[:maxlen + 6]
+
+
+def gen_nested(rng, tier):
+    thorough = tier == "thorough"
+    ops = []
+    # exhaustive: every string over {a ( ) ,} up to length 5 / 6, both modes, delimiters "," and ",,"
+    L = 6 if thorough else 5
+    for n in range(L + 1):
+        for t in itertools.product("a(),", repeat=n):
+            st = "".join(t)
+            for d in (",", ",,"):
+                for solid in (0, 1):
+                    ops.append("nst.rt %s %s %s %s %d %d" % (hx(st), hx("("), hx(")"), hx(d), solid, (n + solid) % 3))
+    # random: every (open, close, delimiter, solid) combination of a list
+    brs = [("(", ")"), ("[", "]"), ("{", "}"), ("<", ">"), ("(", "("), ("<<", ">>"), ("begin", "end"), ("", ")"),
+           ("(", ""), (",", ")")]
+    dsets = [",", " ", ", ", ",;", " \t", "::", "=", ";;;", "", "()", "a"]
+    nr = 20000 if thorough else 3000
+    for _ in range(nr):
+        o, c = rng.choice(brs) if rng.random() < 0.5 else brs[0]
+        d = rng.choice(dsets)
+        st = nested_string(rng, d, o, c)
+        ops.append("nst.rt %s %s %s %s %d %d" % (hx(st), hx(o), hx(c), hx(d), rng.randint(0, 1),
+                                                rng.choice([0, 1, 2, 3, 99])))
+    return chunk("nst", ops, 400)
+
+
+# ------------------------------------------------------------------ tables (round 2)
+def tbl_op(sep, align, ncol, colnames, rownames, rows):
+    items = []
+    if colnames is not None:
+        items += [hx(x) for x in colnames]
+    for i, r in enumerate(rows):
+        if rownames is not None:
+            items.append(hx(rownames[i]))
+        items += [hx(x) for x in r]
+    return ("tbl.rt %s %d %d %d %d %d %s" % (hx(sep), align, ncol, colnames is not None, rownames is not None,
+                                            len(rows), " ".join(items))).rstrip()
+
+
+def gen_table(rng, tier):
+    thorough = tier == "thorough"
+    ops = []
+    seps = ["\t", ",", ";", " ", "|", ":"]
+    words = ["a", "b", "1.5", "-3", "x y", "NA", "A_1", "é".encode("utf-8").decode("latin-1"), "0", "gene", "v=2", "(q)"]
+
+    def cell(rng, sep, kind):
+        r = rng.random()
+        if kind == "valid":
+            w = rng.choice(words)
+            if r < 0.08:
+                w = ""                                   # empty cell (fine except at the start of a line)
+            elif r < 0.16:
+                w = " " + w if rng.random() < 0.5 else w + " "   # blanks around: kept by the reader
+            elif r < 0.20:
+                w = " "
+            return w.replace(sep, "_")
+        # malformed: separator / newline / blank inside
+        w = rng.choice(words)
+        return rng.choice([w + sep + "z", w + "\n" + "z", "", " ", sep, "\n", w + "\r", "\t"])
+
+    def names(rng, k, prefix, sep):
+        base = [prefix + str(i) for i in range(k)]
+        if rng.random() < 0.3:
+            base = [rng.choice(words).replace(sep, "_") + str(i) for i in range(k)]
+        return base
+
+    # every shape up to 6x6 (quick: up to 4x4 + a sample), with/without row and column names, all
+    # separators, both header alignments
+    shapes = [(r, c) for r in range(0, 7) for c in range(0, 7)]
+    if not thorough:
+        shapes = [(r, c) for (r, c) in shapes if (r <= 4 and c <= 4) or rng.random() < 0.4]
+    for (nr, nc) in shapes:
+        for hascol in (0, 1):
+            for hasrow in (0, 1):
+                for rep in range(3 if thorough else 1):
+                    sep = rng.choice(seps)
+                    align = rng.randint(0, 1)
+                    rows = [[cell(rng, sep, "valid") for _ in range(nc)] for _ in range(nr)]
+                    if rng.random() < 0.7:               # make most tables satisfy "first item non-empty"
+                        for r in rows:
+                            if r and r[0].strip() == "":
+                                r[0] = "c"
+                    cn = names(rng, nc, "C", sep) if hascol else None
+                    rn = names(rng, nr, "r", sep) if hasrow else None
+                    ops.append(tbl_op(sep, align, nc, cn, rn, rows))
+    # random tables, one side condition broken in a third of them
+    n = 6000 if thorough else 900
+    for i in range(n):
+        nr, nc = rng.randint(0, 6), rng.randint(1, 6)
+        sep = rng.choice(seps) if rng.random() < 0.9 else rng.choice([", ", "ab", "", "\n", "\t\t"])
+        hascol, hasrow = rng.random() < 0.6, rng.random() < 0.5
+        rows = [[cell(rng, sep if sep else ",", "valid") for _ in range(nc)] for _ in range(nr)]
+        for r in rows:
+            if r[0].strip() == "" and rng.random() < 0.8:
+                r[0] = "c"
+        cn = names(rng, nc, "C", sep if sep else ",") if hascol else None
+        rn = names(rng, nr, "r", sep if sep else ",") if hasrow else None
+        if i % 3 == 2:
+            k = rng.randint(0, 4)
+            if k == 0 and nr:
+                rows[rng.randrange(nr)][rng.randrange(nc)] = cell(rng, sep if sep else ",", "bad")
+            elif k == 1 and cn:
+                cn[rng.randrange(nc)] = rng.choice([cell(rng, sep if sep else ",", "bad"), cn[0]])
+            elif k == 2 and rn:
+                rn[rng.randrange(nr)] = rng.choice([cell(rng, sep if sep else ",", "bad"), rn[0]])
+            elif k == 3 and nr:
+                rows[rng.randrange(nr)][0] = rng.choice(["", " ", "\t"])
+            elif nr:
+                rows = rows[:1]
+        ops.append(tbl_op(sep, rng.randint(0, 1), nc, cn, rn, rows))
+    return chunk("tbl", ops, 200)
+
+
+# ------------------------------------------------------------------ distribution descriptions (round 2)
+def dh(x):
+    return struct.pack(">d", float(x)).hex()
+
+
+def short_dec(rng, lo, hi, digits):
+    """a double that is the nearest to a decimal with at most `digits` decimals: the fixed-notation
+    text written with >= digits decimals is that decimal, and it parses back to the same double"""
+    k = 10 ** digits
+    return rng.randint(int(lo * k), int(hi * k)) / k
+
+
+def dyadic_probs(rng, k):
+    """k positive probabilities that are multiples of 1/64 and sum to exactly 1"""
+    cuts = sorted(rng.sample(range(1, 64), k - 1)) if k > 1 else []
+    parts = [b - a for a, b in zip([0] + cuts, cuts + [64])]
+    return [p / 64.0 for p in parts]
+
+
+def gen_dist_tree(rng, depth, digits, exact=True, pos=False):
+    """prefix-notation tokens of a random distribution (class counts 1..8).  Parameters are kept in
+    the well-conditioned range of the discretisation (shape parameters >= 0.5) and, below an
+    Invariant node (`pos`), class values stay away from the invariant class at 1e-6: the class
+    values of ill-conditioned cases depend on the construction history (C09's subject), which is
+    not what this stream is about."""
+    def num(lo, hi):
+        return dh(short_dec(rng, lo, hi, digits) if exact else rng.uniform(lo, hi))
+    fams = ["G", "B", "E", "N", "T", "U", "C", "S", "Go"]
+    if depth > 0:
+        fams += ["I", "I", "M", "M"]
+    f = rng.choice(fams)
+    n = rng.randint(1, 8)
+    if f == "G":
+        return ["G", str(n), num(0.5, 6), num(0.5, 6)]
+    if f == "Go":
+        return ["Go", str(n), num(0.5, 6), num(0.5, 6), num(0.1, 3)]
+    if f == "B":
+        return ["B", str(n), num(0.5, 5), num(0.5, 5)]
+    if f == "E":
+        return ["E", str(n), num(0.1, 8)]
+    if f == "N":
+        return ["N", str(n), num(3, 6), num(0.1, 0.5)] if pos else ["N", str(n), num(-5, 5), num(0.1, 4)]
+    if f == "T":
+        return ["T", str(n), num(0.1, 4), num(0.5, 20)]
+    if f == "U":
+        a = short_dec(rng, 0.1 if pos else -5, 5, min(digits, 6)); b = a + short_dec(rng, 0.1, 6, min(digits, 3))
+        return ["U", str(n), dh(a), dh(round(b, 6))]
+    if f == "C":
+        return ["C", num(0.1 if pos else -3, 9)]
+    if f == "S":
+        k = rng.randint(1, 8)
+        vals = sorted(set(short_dec(rng, 0.1 if pos else -2, 9, min(digits, 3)) for _ in range(k)))
+        k = len(vals)
+        return ["S", str(k)] + [dh(v) for v in vals] + [dh(p) for p in dyadic_probs(rng, k)]
+    if f == "I":
+        return ["I", num(0.01, 0.9)] + gen_dist_tree(rng, depth - 1, digits, exact, True)
+    k = rng.randint(1, 3)
+    toks = ["M", str(k)] + [dh(p) for p in dyadic_probs(rng, k)]
+    for _ in range(k):
+        toks += gen_dist_tree(rng, depth - 1, digits, exact, True)
+    return toks
+
+
+def gen_dist(rng, tier):
+    thorough = tier == "thorough"
+    ops = []
+    # every family x class count 1..8 with fixed parameters
+    for n in range(1, 9):
+        for toks in (["G", str(n), dh(0.5), dh(1.25)], ["Go", str(n), dh(2), dh(0.5), dh(0.75)], ["B", str(n), dh(1.5), dh(2)],
+                     ["E", str(n), dh(2)], ["N", str(n), dh(1), dh(2)], ["T", str(n), dh(1), dh(5)],
+                     ["U", str(n), dh(0.5), dh(2.5)],
+                     ["S", str(n)] + [dh(i + 0.5) for i in range(n)] + [dh(p) for p in dyadic_probs(rng, n)],
+                     ["I", dh(0.125), "G", str(n), dh(0.5), dh(1)],
+                     ["M", "2", dh(0.25), dh(0.75), "G", str(n), dh(0.5), dh(1), "E", str(max(1, n - 1)), dh(2)]):
+            ops.append("dist.rt 6 " + " ".join(toks))
+    ops.append("dist.rt 6 C " + dh(1.5))
+    # random trees, parameters that are exactly representable in the text (bit-for-bit round trip expected)
+    n = 6000 if thorough else 800
+    for _ in range(n):
+        prec = rng.choice([6, 6, 6, 8, 12])
+        digits = rng.choice([1, 2, 3, min(prec, 6)])
+        ops.append("dist.rt %d %s" % (prec, " ".join(gen_dist_tree(rng, 2, digits))))
+    # arbitrary doubles: the text rounds them (12 decimals for parameters, the stream's precision for
+    # values and probabilities): class values / probabilities come back approximately
+    m = 2000 if thorough else 250
+    for _ in range(m):
+        ops.append("dist.rt %d %s" % (rng.choice([6, 9, 12]), " ".join(gen_dist_tree(rng, 1, 6, exact=False))))
+    return chunk("dist", ops, 100)
+
+
+# ------------------------------------------------------------------ number formatting (round 2)
+def gen_numfmt(rng, tier):
+    """toString(d, precision) for every precision 0..20: doubles by bit pattern, short decimals
+    (k / 10^j, which have many more binary than decimal digits), dyadic values (exact in few decimal
+    digits), powers of ten and their neighbours (where the notation switches), ties of the rounding"""
+    ops = []
+    n = 12000 if tier == "thorough" else 1500
+    vals = []
+    for _ in range(n):
+        r = rng.random()
+        if r < 0.25:
+            bits = rng.getrandbits(64)
+            if (bits >> 52) & 0x7ff == 0x7ff:
+                continue
+            vals.append("%016x" % bits)
+        elif r < 0.5:
+            v = rng.choice([1, -1]) * rng.randint(0, 10 ** rng.randint(1, 8)) / 10 ** rng.randint(0, 9)
+            vals.append(dh(v))
+        elif r < 0.7:
+            v = rng.choice([1, -1]) * rng.randint(0, 2 ** rng.randint(1, 30)) / 2 ** rng.randint(0, 20)
+            vals.append(dh(v))
+        elif r < 0.85:
+            e = rng.randint(-12, 22)
+            v = 10.0 ** e
+            k = rng.choice([-2, -1, 0, 0, 1, 2])
+            bits = struct.unpack(">Q", struct.pack(">d", v))[0] + k
+            vals.append("%016x" % bits)
+        else:
+            # a tie of the rounding to p digits: d.ddd5 with an exactly representable 5
+            m = rng.randint(1, 10 ** rng.randint(1, 6)) * 10 + 5
+            v = m / 2 ** rng.randint(1, 4) if rng.random() < 0.5 else m * 0.5
+            vals.append(dh(v))
+    for h in vals:
+        ops.append("dbl.rt %s %d" % (h, rng.choice([0, 1, 2, 3, 5, 6, 6, 6, 8, 10, 12, 15, 16, 17, 17, 18, 20])))
+    for h in ["0000000000000000", "8000000000000000", "3ff0000000000000", "4024000000000000", "40c3880000000000",
+              "412e848000000000", "3f1a36e2eb1c432d", "3f847ae147ae147b", "3fb999999999999a"]:
+        for p in (0, 1, 5, 6, 7, 17):
+            ops.append("dbl.rt %s %d" % (h, p))
+    return chunk("fmt", ops, 300)
+
+
 # ------------------------------------------------------------------ entry points
 def generate(seed, tier):
     rng = random.Random(seed)
@@ -392,6 +711,12 @@ def generate(seed, tier):
     cases += gen_glob(rng, tier)
     cases += gen_keyval(rng, tier)
     cases += gen_vars(rng, tier)
+    rng2 = random.Random(seed * 7919 + 17)          # round 2 streams: the earlier ones are unchanged
+    cases += gen_tok(rng2, tier)
+    cases += gen_nested(rng2, tier)
+    cases += gen_table(rng2, tier)
+    cases += gen_dist(rng2, tier)
+    cases += gen_numfmt(rng2, tier)
     return cases
 
 
@@ -427,7 +752,12 @@ def compare(op_line, impl, model):
             return False
         return a[0] == b[0] and a[1] == b[1] and same_double(a[2], b[2]) and a[3] == b[3]
     if op == "dbl.rt":
-        return impl.split()[:1] == model.split()[:1]
+        a, b = impl.split(), model.split()
+        if len(a) != 2 or len(b) != 2:
+            return False
+        return (b[0] == "*" or a[0] == b[0]) and a[1] == b[1]     # the text is modelled; the double read back at 17 digits
+    if op == "dist.rt":
+        return True                               # explored: the model has no answer of its own ("?")
     return " ".join(impl.split()) == " ".join(model.split())
 
 
